@@ -309,3 +309,53 @@ package smtp
 //@   requires[C15:wf] a != nil && a.h != nil
 //@   ensures[C15:success-means-verified] err == nil && !more ==> a.verified
 //@   ensures[C15:ack-only-when-verified] more && err == nil && len(resp) == 0 ==> a.verified
+
+// ---------------------------------------------------------------------------
+// C07  TLS policy and credential confidentiality (policy logic and ordering; the TLS
+// handshake and certificate validation themselves are crypto/tls and are assumed)
+//
+//@ func smtp.NewClient (conn, host) (c, err)
+//@   ensures[C07:tlsflag] err == nil ==> tlsinv(c) && c.tls == istype(conn, "*tls.Conn") && c.serverName == host
+//@ func smtp.Client.cmd (expectCode, format, args) (code, msg, err)
+//@   requires[C07:wf] c != nil && c.Text != nil
+//@   ensures[C07:count] (harmless(kind(format)) || istype(c.Text.tconn, "*tls.Conn")) ==> world.clearcmds == old(world.clearcmds)
+//@ func smtp.Client.hello
+//@   requires[C07:wf] c != nil && c.Text != nil
+//@   ensures[C07:count] world.clearcmds == old(world.clearcmds)
+//@ func smtp.Client.ehlo
+//@   requires[C07:wf] c != nil && c.Text != nil
+//@   ensures[C07:count] world.clearcmds == old(world.clearcmds)
+//@ func smtp.Client.helo
+//@   requires[C07:wf] c != nil && c.Text != nil
+//@   ensures[C07:count] world.clearcmds == old(world.clearcmds)
+//@ func smtp.Client.Hello
+//@   requires[C07:wf] c != nil && c.Text != nil
+//@   ensures[C07:count] world.clearcmds == old(world.clearcmds)
+//@ func smtp.Client.Extension
+//@   requires[C07:wf] c != nil && c.Text != nil
+//@   ensures[C07:count] world.clearcmds == old(world.clearcmds)
+//@ func smtp.Client.Quit
+//@   requires[C07:wf] c != nil && c.Text != nil
+//@   ensures[C07:count] world.clearcmds == old(world.clearcmds)
+//@ func smtp.Client.StartTLS
+//@   requires[C07:wf] tlsinv(c)
+//@   ensures[C07:count] tlsinv(c) && world.clearcmds == old(world.clearcmds) && c.serverName == old(c.serverName)
+//@   ensures[C07:upgraded] r0 == nil ==> c.tls
+//@ func smtp.Client.GetTLSConnectionState () (state, err)
+//@   requires[C07:wf] c != nil
+//@   ensures[C07:only-when-tls] err == nil ==> c.tls && state != nil
+//@ func smtp.Client.Auth
+//@   requires[C07:wf] tlsinv(c)
+//@   ensures[C07:count] c.tls ==> world.clearcmds == old(world.clearcmds)
+//@   loop 1 invariant[C07:count] tlsinv(c) && c.tls == old(c.tls) && (c.tls ==> world.clearcmds == old(world.clearcmds))
+//@ at smtp.Client.Auth smtp.Auth.Start#1 before assert[C07:serverinfo] arg1.TLS == c.tls && arg1.Name == c.serverName
+//@ func smtp.isLocalhost
+//@   ensures[C07:def] result == islocalname(name)
+//@ func smtp.plainAuth.Start (server) (proto, resp, err)
+//@   requires[C07:wf] a != nil && server != nil
+//@   ensures[C07:no-cleartext-password] err == nil ==> server.TLS || a.allowUnencryptedAuth || islocalname(server.Name)
+//@   ensures[C07:host-match] err == nil ==> server.Name == a.host
+//@ func smtp.loginAuth.Start (server) (proto, resp, err)
+//@   requires[C07:wf] a != nil && server != nil
+//@   ensures[C07:no-cleartext-password] err == nil ==> server.TLS || a.allowUnencryptedAuth || islocalname(server.Name)
+//@   ensures[C07:host-match] err == nil ==> server.Name == a.host
